@@ -43,7 +43,6 @@ def main():
 
     hook.install(info.get("instrument", {}))
     import importlib
-    import multiprocessing as mp
 
     from vx import framework
 
@@ -54,22 +53,7 @@ def main():
     random.Random(seed).shuffle(obs)
     # heavy obligations first
     obs.sort(key=lambda o: -o.get("weight", 1))
-    results = []
-    ctx = mp.get_context("fork")
-    procs = max(1, min(a.procs, len(obs)))
-    work = [(a.prop, info["module"], o, tier) for o in obs]
-    if procs == 1:
-        it = map(framework.run_obligation, work)
-    else:
-        pool = ctx.Pool(procs, maxtasksperchild=info.get("maxtasksperchild", 100))
-        it = pool.imap_unordered(framework.run_obligation, work)
-    for r in it:
-        results.append(r)
-        if a.v:
-            print(f"  [{r['status']}] {r['id']} paths={r['paths']} q={r['queries']} {r['wall_s']}s {r['reasons'][:1] if r['reasons'] else ''}", flush=True)
-    if procs != 1:
-        pool.close()
-        pool.join()
+    results = run_workers(a.prop, tier, obs, max(1, min(a.procs, len(obs))), info, a.v, root)
     results.sort(key=lambda r: r["id"])
     wall = time.time() - t0
 
@@ -101,6 +85,118 @@ def main():
     if herr:
         sys.exit(3)
     sys.exit(0)
+
+
+def run_workers(prop, tier, obs, procs, info, verbose, root):
+    """dynamic scheduling over fresh worker processes (JSON lines over pipes); hung or dead workers are killed, their
+    obligation is reported inconclusive and a new worker is started"""
+    import selectors
+    import subprocess
+
+    maxtasks = info.get("maxtasksperchild", 100)
+    default_budget = 90 if tier == "quick" else 600
+    pending = list(obs)
+    results = []
+    sel = selectors.DefaultSelector()
+    workers = {}
+
+    def spawn():
+        env = dict(os.environ)
+        env["PYTHONDONTWRITEBYTECODE"] = "1"
+        p = subprocess.Popen([sys.executable, "-m", "vx.worker", prop, tier], cwd=root, stdin=subprocess.PIPE, stdout=subprocess.PIPE,
+                             stderr=subprocess.DEVNULL, text=True, bufsize=1, env=env)
+        w = {"p": p, "ob": None, "t0": time.time(), "n": 0, "ready": False}
+        workers[p.stdout.fileno()] = w
+        sel.register(p.stdout, selectors.EVENT_READ, w)
+        return w
+
+    def give(w):
+        if not pending or w["n"] >= maxtasks:
+            try:
+                w["p"].stdin.write("QUIT\n")
+                w["p"].stdin.flush()
+            except Exception:
+                pass
+            retire(w)
+            if pending and len(workers) < procs:
+                spawn()
+            return
+        ob = pending.pop(0)
+        w["ob"], w["t0"] = ob, time.time()
+        w["n"] += 1
+        try:
+            w["p"].stdin.write(json.dumps(ob) + "\n")
+            w["p"].stdin.flush()
+        except Exception:
+            fail(w, "worker pipe broken")
+
+    def retire(w):
+        try:
+            sel.unregister(w["p"].stdout)
+        except Exception:
+            pass
+        workers.pop(w["p"].stdout.fileno(), None)
+        try:
+            w["p"].stdin.close()
+        except Exception:
+            pass
+
+    def fail(w, why):
+        ob = w["ob"]
+        if ob is not None:
+            results.append({"id": ob["id"], "status": "inconclusive", "known": [], "violation": None, "reasons": [why], "paths": 0, "ok_paths": 0,
+                            "queries": 0, "solver_s": 0.0, "wall_s": round(time.time() - w["t0"], 1)})
+            if verbose:
+                print(f"  [inconclusive] {ob['id']} {why}", flush=True)
+        try:
+            w["p"].kill()
+        except Exception:
+            pass
+        retire(w)
+        if pending:
+            spawn()
+
+    for _ in range(procs):
+        spawn()
+    startup_failures = [0]
+    while workers:
+        if startup_failures[0] > 3 * procs:
+            print("HARNESS-ERROR workers cannot start")
+            for w in list(workers.values()):
+                try:
+                    w["p"].kill()
+                except Exception:
+                    pass
+            sys.exit(3)
+        events = sel.select(timeout=5)
+        for key, _ in events:
+            w = key.data
+            line = w["p"].stdout.readline()
+            if not line:
+                if not w["ready"]:
+                    startup_failures[0] += 1
+                fail(w, "worker process died")
+                continue
+            line = line.strip()
+            if line == "READY":
+                w["ready"] = True
+                give(w)
+                continue
+            try:
+                r = json.loads(line)
+            except Exception:
+                continue
+            results.append(r)
+            if verbose:
+                print(f"  [{r['status']}] {r['id']} paths={r['paths']} q={r['queries']} {r['wall_s']}s {r['reasons'][:1] if r['reasons'] else ''}", flush=True)
+            w["ob"] = None
+            give(w)
+        now = time.time()
+        for w in list(workers.values()):
+            limit = (w["ob"].get("budget_s", default_budget) * 2 + 120) if w["ob"] is not None else 300
+            if now - w["t0"] > limit and (w["ob"] is not None or not w["ready"]):
+                fail(w, f"worker exceeded {limit:.0f} s wall (killed)")
+    return results
 
 
 def write_evidence(root, prop, tier, seed, mod, info, obs, results, wall):
